@@ -293,6 +293,9 @@ func C07(tier string) {
 		if sp.Base != "empty" {
 			d--
 		}
+		if sp.Base == "nested-excl" {
+			d = 1
+		}
 		fams = append(fams, family{sp, sp.Base + "/all", d, nil})
 	}
 	for _, sp := range univ.MavenSpaces() {
